@@ -254,6 +254,13 @@ impl Ctx {
             .and_then(|s| serde_json::from_str::<KnownFile>(&s).ok())
             .map(|k| k.findings.into_iter().filter(|f| f.property == id).collect())
             .unwrap_or_default();
+        let mut known = known;
+        // development aid: extra (proposed) known findings, never set by registered commands
+        if let Ok(p) = std::env::var("VERIF_EXTRA_KNOWN") {
+            if let Some(k) = std::fs::read_to_string(p).ok().and_then(|s| serde_json::from_str::<KnownFile>(&s).ok()) {
+                known.extend(k.findings.into_iter().filter(|f| f.property == id));
+            }
+        }
         Ctx {
             id: id.to_string(),
             tier,
